@@ -1016,3 +1016,14 @@ package rockredis
 //@   ensures result1 == nil && ghost(kvexpired, db) == 1 ==> result0 == delta
 //@   ensures result1 == nil ==> ghost(commits, db.rockEng) == old(ghost(commits, db.rockEng)) + 1 && ghost(cputs, db.rockEng) >= 1
 //@   modifies db.isBatching, ghost(wbputs, _), ghost(wbdels, _), ghost(wbver, _), ghost(commits, _), ghost(cputs, _), ghost(cdels, _), ghost(cver, _), ghost(tblcnt, db)
+
+// EXPIRE family: the absolute expiry handed to the policy is log-time seconds + requested duration
+//@ interface (github.com/youzan/ZanRedisDB/rockredis.expiration).getRawValueForHeader func(e expiration, ts int64, dt byte, key []byte) ([]byte, error)
+//@ interface (github.com/youzan/ZanRedisDB/rockredis.expiration).ExpireAt func(e expiration, dt byte, key []byte, rawValue []byte, when int64) (int64, error)
+//@   ghostset ghost(expireat, e) := when
+//@   modifies ghost(expireat, e)
+//@ func (db *RockDB) expire(ts int64, dataType byte, key []byte, rawValue []byte, duration int64) (int64, error)
+//@   trusted nooverflow log seconds + duration wraps only for durations near 2^63, to a negative time that the policy refuses
+//@   requires db != nil && db.expiration != nil
+//@   ensures result1 == nil ==> ghost(expireat, db.expiration) == ts / 1000000000 + duration
+//@   modifies ghost(expireat, _)
